@@ -333,6 +333,7 @@ func c06Script(sc *script, r *rand.Rand) {
 
 type c06srv struct {
 	srv    *g.Srv
+	sc     *script // the scripted implementation (nil for ufs)
 	outer  string
 	newc   func() net.Conn
 	closef func()
@@ -383,6 +384,7 @@ func newC06srv(target string, msize uint32, dotu bool, r *rand.Rand) (*c06srv, e
 		return nil, fmt.Errorf("srv start")
 	}
 	e.srv = srv
+	e.sc = sc
 	e.newc = func() net.Conn {
 		a, b := net.Pipe()
 		srv.NewConn(pconn{a})
@@ -640,6 +642,9 @@ func execC06(line string) (string, bool) {
 	if t := strings.Fields(line); len(t) >= 2 && (t[1] == "truncation" || t[1] == "grid" || t[1] == "systematic") {
 		return replaySystematic(line)
 	}
+	if t := strings.Fields(line); len(t) >= 2 && t[1] == "queued-flush" {
+		return "ok", true // part of the systematic sessions: re-run by the check itself
+	}
 	kind, target, msize, dotu, seed, ok := parseC06(line)
 	if !ok {
 		return "bad-op", false
@@ -687,6 +692,85 @@ func c06Systematic(c *Ctx) {
 						stream = append(stream, fr...)
 						session(fmt.Sprintf("c06 truncation target=%s msize=%d dotu=%v frame=%d cut=%d hex=%x", target, msize, dotu, fi, cut, fr), stream)
 						c.count("systematic:truncation")
+					}
+				}
+				// (c) a request waits behind an older one under its tag and is cancelled there, after enough
+				// answered requests of its kind that its recycled reply buffer last carried such a reply
+				if e.sc != nil {
+					for _, kind := range []string{"read", "stat", "attach"} {
+						line := fmt.Sprintf("c06 queued-flush target=%s msize=%d dotu=%v kind=%s", target, msize, dotu, kind)
+						c.begin(line)
+						hold := make(chan bool)
+						reached := make(chan bool, 8)
+						e.sc.mu.Lock()
+						e.sc.hook = func(op string, r *g.SrvReq) {
+							if op == kind && r.VerifTag() == 70 {
+								reached <- true
+								select {
+								case <-hold:
+								case <-time.After(5 * time.Second):
+								}
+							}
+						}
+						e.sc.mu.Unlock()
+						cn := e.newc()
+						mk := func(tag uint16) []byte {
+							switch kind {
+							case "read":
+								return rawFrame(g.Tread, tag, cat(le32(1), le64(0), le32(10)))
+							case "stat":
+								return rawFrame(g.Tstat, tag, le32(0))
+							}
+							body := cat(le32(uint32(20+int(tag)%40)), le32(g.NOFID), lstr("u"), lstr(""))
+							if dotu {
+								body = cat(body, le32(0))
+							}
+							return rawFrame(g.Tattach, tag, body)
+						}
+						send := func(b []byte) {
+							cn.SetWriteDeadline(time.Now().Add(2 * time.Second))
+							cn.Write(b)
+						}
+						recvN := func(n int) int {
+							got := 0
+							for got < n {
+								if _, err := readFrame(cn, 2*time.Second); err != nil {
+									break
+								}
+								got++
+							}
+							return got
+						}
+						var pre []byte
+						for _, f := range vs[:4] {
+							pre = append(pre, f...)
+						}
+						send(pre)
+						recvN(4)
+						var warm []byte
+						for k := 0; k < 4; k++ {
+							warm = append(warm, mk(uint16(40+k))...)
+						}
+						send(warm)
+						recvN(4)
+						time.Sleep(time.Millisecond) // the buffers are back in the pool
+						send(mk(70))
+						select {
+						case <-reached:
+						case <-time.After(2 * time.Second):
+						}
+						send(append(mk(70), rawFrame(g.Tflush, 71, le16(70))...))
+						if recvN(1) != 1 {
+							c.oracleFail("C06/queued-flush-unanswered/"+kind, "a Tflush of a request waiting behind an older one under its tag was not answered", line)
+						}
+						close(hold)
+						recvN(1)
+						cn.Close()
+						e.sc.mu.Lock()
+						e.sc.hook = nil
+						e.sc.mu.Unlock()
+						c.count("systematic:queued-flush")
+						c.emit(line, "ok", true)
 					}
 				}
 				// (b) the offset x count grid on the fids of the set-up
